@@ -106,7 +106,7 @@ def plan(tier, seed):
 
 def mandatory_bins(tier):
     b = ["small_curve", "pair_add", "pair_add_with_infinity", "pair_add_equal_operands", "pair_add_inverse_operands", "rep_unreduced_negative_y", "rep_scaled", "rep_same_z", "rep_different_z",
-         "double", "negate", "scalar_mul_all_0_to_2n_plus_1", "scalar_mul_precompute_path", "scalar_mul_without_order", "mul_add", "affine_point_arithmetic", "mixed_jacobi_affine", "equality_across_representations",
+         "double", "negate", "scalar_mul_all_0_to_2n_plus_1", "scalar_mul_precompute_path", "scalar_mul_without_order", "mul_add", "affine_point_arithmetic", "neutral_element_and_reflected_operations", "mixed_jacobi_affine", "equality_across_representations",
          "anomalous_curve_n_eq_p", "long_lived_point_objects_reused_across_operations", "curve_a_zero", "curve_a_minus_3", "curve_p_1_mod_4",
          "shipped_curve", "kG_vs_openssl", "kQ_vs_openssl", "mul_add_vs_openssl", "negation_scale_combination", "scalar_n", "scalar_n_plus_1", "scalar_2^k", "scalar_2^k-1", "ecdh_vs_openssl", "ecdh_edge_scalar", "ecdh_keys_loaded_as_bytes", "ecdh_keys_loaded_as_der", "ecdh_keys_loaded_as_pem", "ecdh_keys_loaded_as_object", "ecdh_generated_private_key", "ecdh_object_reused_with_keys_replaced_one_at_a_time", "ecdh_shared_point_with_x_zero",
          "invalid_off_curve", "invalid_coordinate_ge_p", "invalid_congruent_coordinate_ge_p", "invalid_zero_zero", "invalid_other_curve_point", "invalid_point_object_of_sibling_curve", "invalid_point_outside_prime_order_subgroup", "invalid_infinity", "repository_suite_under_group_law_monitor"]
@@ -314,6 +314,21 @@ def run_small(ns, ctx, spec):
                 want = els[tab[idx[want]][i1]]
             if as_group(P1.double(), INF, p) != els[tab[i1][i1]] or as_group(-P1, INF, p) != S.neg(E1, p):
                 ctx.violation("affine_double_or_negate_wrong", {"curve": cid, "P": E1}, dict(rp, op="aff_dbl", P=E1))
+            # the neutral element on either side, reflected multiplication, bool / index-like scalars
+            J1 = PJ(curve, E1[0], E1[1], 1, n)
+            ctx.bin("neutral_element_and_reflected_operations")
+            checks = (("INF+P", lambda: INF + P1, E1), ("P+INF", lambda: P1 + INF, E1), ("INF+J", lambda: INF + J1, E1), ("J+INF", lambda: J1 + INF, E1), ("INF*k", lambda: INF * (i1 + 2), None), ("k*INF", lambda: (i1 + 2) * INF, None),
+                      ("k*P", lambda: 3 * P1, els[tab[tab[i1][i1]][i1]]), ("k*J", lambda: 3 * J1, els[tab[tab[i1][i1]][i1]]), ("True*P", lambda: True * P1, E1), ("J*True", lambda: J1 * True, E1), ("P*0", lambda: P1 * 0, None), ("J*0", lambda: J1 * 0, None),
+                      ("INF.double", lambda: INF.double(), None), ("INF+INF", lambda: INF + INF, None), ("P+(-P)", lambda: P1 + (-P1), None), ("J+(-J)", lambda: J1 + (-J1), None), ("J*(n)", lambda: J1 * n, None), ("P*(-1)", lambda: P1 * (n - 1), S.neg(E1, p)))
+            for cname, fn, want_ in checks:
+                ctx.ev()
+                try:
+                    got_ = as_group(fn(), INF, p)
+                except Exception as e:
+                    ctx.violation("neutral_or_reflected_operation_raises:" + cname, {"curve": cid, "P": E1, "exc": fmt_exc(e)}, dict(rp, op=cname, P=E1))
+                    continue
+                if got_ != want_:
+                    ctx.violation("neutral_or_reflected_operation_wrong:" + cname, {"curve": cid, "P": E1, "got": got_, "expected": want_}, dict(rp, op=cname, P=E1))
             ctx.distinct(cid, "aff", i1)
     ctx.sample({"kind": "small", "curve": list(spec["curves"][0]), "note": "all %d x %d ordered pairs x %d representation combinations" % (spec["curves"][0][3], spec["curves"][0][3], len(COMBOS))})
 
